@@ -30,6 +30,13 @@ class W {}
 class X {}
 class Box<T> { public T $v; public function id(T $x) { return 1; } }
 class Pair<K, V> { public K $k; public V $v; public function setv(V $x) { return 1; } }
+class RepoBase {
+  public $count = 0;
+  public function touch() { return 1; }
+}
+class Repo<T> extends RepoBase { public T $last; public function save(T $x) { return 1; } }
+function put_last($o, $x) { $o->last = $x; }
+function call_save($o, $x) { return $o->save($x); }
 function put_v($o, $x) { $o->v = $x; }
 function put_k($o, $x) { $o->k = $x; }
 function call_id($o, $x) { return $o->id($x); }
@@ -64,11 +71,11 @@ func c19Script(acts []c19Act, spawned bool) string {
 		case "write":
 			if a.Via == "helper" {
 				h := "put_"
-				if a.Member == "id" || a.Member == "setv" {
+				if a.Member == "id" || a.Member == "setv" || a.Member == "save" {
 					h = "call_"
 				}
 				fmt.Fprintf(&sb, "try { %s%s($i%d, %s); echo \"ok;\"; } catch (\\Throwable $e) { echo \"rej;\"; }\n", h, a.Member, a.I, c19Value(a.Kind))
-			} else if a.Member == "id" || a.Member == "setv" {
+			} else if a.Member == "id" || a.Member == "setv" || a.Member == "save" {
 				fmt.Fprintf(&sb, "try { $i%d->%s(%s); echo \"ok;\"; } catch (\\Throwable $e) { echo \"rej;\"; }\n", a.I, a.Member, c19Value(a.Kind))
 			} else {
 				fmt.Fprintf(&sb, "try { $i%d->%s = %s; echo \"ok;\"; } catch (\\Throwable $e) { echo \"rej;\"; }\n", a.I, a.Member, c19Value(a.Kind))
@@ -156,7 +163,7 @@ func C19(c *Ctx) *kf.Report {
 			if o == a.Ok {
 				continue
 			}
-			isParam := a.Member == "id" || a.Member == "setv"
+			isParam := a.Member == "id" || a.Member == "setv" || a.Member == "save"
 			id := fmt.Sprintf("C19/member=%s.%s/kind=%s/unexplained/seq=%s", a.Cls, a.Member, a.Kind, seq)
 			if o == a.Dev {
 				if isParam {
